@@ -189,6 +189,10 @@ func plan(r *core.Run, stp **semState) []phase {
 			return runSemantic(r, *stp, ls)
 		}}
 	}
+	hist := func() phase {
+		names = append(names, "histories:confusable")
+		return phase{"hist", func() bool { return runHistories(r) }}
+	}
 	all := semModes
 	null := []string{"null"}
 	l0 := level{name: "size0-full", n: 0, pol: polFull, json: true}
@@ -212,6 +216,7 @@ func plan(r *core.Run, stp **semState) []phase {
 		phases = []phase{
 			syn(l0, l1p, l2k2),
 			fqp(l0, l1s, l2k1),
+			hist(),
 			sem(semLevel{level{name: "slurp-stages"}, []string{"slurplast"}}, semLevel{s0, []string{"slurplast"}}, semLevel{s1k1, []string{"slurplast"}}, semLevel{s1k4, []string{"slurplast"}}),
 			sem(semLevel{level{name: "capture-set"}, all}, semLevel{s0, all}, semLevel{s1k1, all}, semLevel{s1k4, []string{"null", "normal"}}, semLevel{s2k1, null}),
 			syn(l3),
@@ -220,6 +225,7 @@ func plan(r *core.Run, stp **semState) []phase {
 		phases = []phase{
 			syn(l0, l1p, l2k2),
 			fqp(l0, l1s, l2k1),
+			hist(),
 			sem(semLevel{level{name: "capture-set"}, all}, semLevel{s0, all}, semLevel{s1k1, all}, semLevel{s1k4, all}, semLevel{s2k1, null}),
 			sem(semLevel{level{name: "slurp-stages"}, []string{"slurplast"}}, semLevel{s0, []string{"slurplast"}}, semLevel{s1k1, []string{"slurplast"}}, semLevel{s1k4, []string{"slurplast"}}, semLevel{s2k1, []string{"slurplast"}}),
 			syn(l3j),
@@ -350,6 +356,8 @@ func replay(r *core.Run, raw json.RawMessage) bool {
 		vs = v
 	case "fqpath":
 		vs = fqPathBatch(nil, []item{it})
+	case "hist":
+		return histCheckSeq(nil, strings.Split(c.Skel, "\x01"), map[string]string{}, map[string]string{}, true)
 	case "sem":
 		st := newSemState()
 		defer st.close()
